@@ -53,15 +53,15 @@ func init() {
 // ---- scenarios ------------------------------------------------------------------
 
 type scenario struct {
-	Name    string
-	EUT     string // client | server  (which side is zcrypto under test)
-	GoPeer  bool   // recording peer is Go's crypto/tls (otherwise zcrypto)
-	Cell    cell
-	Auth    bool // server requests a client certificate
-	Resume  bool // transcript of a resumed session
-	HRR     bool // TLS 1.3 HelloRetryRequest
-	Reneg   bool // client under test allows renegotiation
-	Staple  bool // server certificate carries OCSP staple and SCTs
+	Name     string
+	EUT      string // client | server  (which side is zcrypto under test)
+	GoPeer   bool   // recording peer is Go's crypto/tls (otherwise zcrypto)
+	Cell     cell
+	Auth     bool // server requests a client certificate
+	Resume   bool // transcript of a resumed session
+	HRR      bool // TLS 1.3 HelloRetryRequest
+	Reneg    bool // client under test allows renegotiation
+	Staple   bool // server certificate carries OCSP staple and SCTs
 	NoTicket bool
 }
 
@@ -476,17 +476,17 @@ func (e *eutSession) waitIdle(written int64) (alive, ok bool) {
 }
 
 type replayOutcome struct {
-	reached      bool
-	watchdog     bool
-	handshakeOK  bool
-	appBytes     int
-	blocked      string // non-empty: violation key suffix
-	blockedDump  string
-	calls        []callRec
-	panics       []*core.PanicInfo
-	postPanics   []*core.PanicInfo
-	postBlocked  string
-	consumed     int64
+	reached     bool
+	watchdog    bool
+	handshakeOK bool
+	appBytes    int
+	blocked     string // non-empty: violation key suffix
+	blockedDump string
+	calls       []callRec
+	panics      []*core.PanicInfo
+	postPanics  []*core.PanicInfo
+	postBlocked string
+	consumed    int64
 }
 
 // replay feeds chunks to a fresh endpoint of the scenario. chunks[:first] are sent first; the rest
